@@ -74,7 +74,9 @@ class Pool:
         }
         json.dump(spec, open(spec_p, "w"))
         return {"ob": ob, "spec": spec_p, "out": out_p, "env": _child_env(extra_env), "tag": tag,
-                "hard": budget * 2.5 + 60, "proc": None, "t0": None, "log": os.path.join(self.tmp, f"{i}.log"),
+                # wall-clock kill limit (budgets are CPU time); generous for the reachability twins, whose
+                # failure to finish would otherwise look like a vacuous harness on a loaded machine
+                "hard": (budget * 2.5 + 60) if tag != "twin" else max(900.0, budget * 4), "proc": None, "t0": None, "log": os.path.join(self.tmp, f"{i}.log"),
                 "entry": "vf.e2child" if ob.engine == "E2" else "vf.child"}
 
     def run_all(self, jobs: List[dict], progress=None) -> None:
